@@ -81,6 +81,11 @@ def parse_text(text):
     return out
 
 
+def raw_octets(items):
+    """file content given as octets (may be >= 0x80): stored as is, decoded on read"""
+    return list(items)
+
+
 class DecText:
     """a line consisting of the decimal digits of a symbolic integer (optionally with its newline)"""
 
@@ -152,8 +157,11 @@ class FakePath:
 
 
 class FakeFile:
-    def __init__(self, path, mode):
+    def __init__(self, path, mode, encoding=None, errors=None):
         self.path, self.mode, self.pos = path, mode, 0
+        # text decoding of file octets >= 0x80: the default encoding is taken to be UTF-8, strict
+        self.encoding = (encoding or "utf-8").lower().replace("_", "-")
+        self.errors = errors or "strict"
         fs = path.fs
         if "w" in mode:
             fs.files[path.name] = []
@@ -225,9 +233,38 @@ class FakeFile:
             if bool(ch == 10):
                 break
         self.pos = -1
+        line = self._decode(line)
         if all(_real_isinstance(x, int) for x in line):
             return "".join(chr(x) for x in line)
         return SymStr(SBytes(line, False), len(line))
+
+    def _decode(self, line):
+        """file octets -> characters for the ASCII-only text model; octets >= 0x80 follow the codec the file was opened with"""
+        if all(_real_isinstance(x, int) and x < 0x80 for x in line) or all((not _real_isinstance(x, int)) and x.hi < 0x80 for x in line
+                                                                           if not _real_isinstance(x, int)) and all(
+                x < 0x80 for x in line if _real_isinstance(x, int)):
+            return line
+        out = []
+        for pos, x in enumerate(line):
+            if bool(x < 0x80):
+                out.append(x)
+                continue
+            if self.errors == "ignore":
+                continue
+            if self.errors == "replace":
+                out.append(63)
+                continue
+            if self.encoding in ("ascii", "us-ascii"):
+                raise UnicodeDecodeError("ascii", b"", pos, pos + 1, "ordinal not in range(128)")
+            if self.encoding in ("utf-8", "utf8"):
+                # only the octets that can never start a UTF-8 sequence are modelled; anything else is outside the model
+                if bool(((x >= 0x80) & (x <= 0xBF)) | (x >= 0xF8) | (x == 0xC0) | (x == 0xC1)):
+                    raise UnicodeDecodeError("utf-8", b"", pos, pos + 1, "invalid start byte")
+                raise EngineLimit("multi-octet UTF-8 text in the file model")
+            if self.encoding in ("latin-1", "latin1", "iso-8859-1"):
+                raise EngineLimit("non-ASCII latin-1 text in the file model")
+            raise EngineLimit("file encoding " + self.encoding)
+        return out
 
     def read(self, size=-1):
         raise EngineLimit("read() of the file model")
@@ -250,10 +287,10 @@ class FakeFile:
         return new_chars_len
 
 
-def sym_open(path, mode="r", *a, **k):
+def sym_open(path, mode="r", buffering=-1, encoding=None, errors=None, newline=None, *a, **k):
     if _real_isinstance(path, FakePath):
-        return FakeFile(path, mode)
-    return _real_open(path, mode, *a, **k)
+        return FakeFile(path, mode, encoding, errors)
+    return _real_open(path, mode, buffering, encoding, errors, newline, *a, **k)
 
 
 def install_into(module_dict, saved, missing):
